@@ -556,19 +556,32 @@ func (g *c08Gen) grpcInput() c08Input {
 func TestVerifC08(t *testing.T) {
 	rec := ev.New("C08", "crash-monitor")
 	defer rec.Flush()
-	rec.Rule("HTTP requests from a JSON-RPC grammar (methods x params shapes x ill-typed values x options x ids, truncation, bit flips, splices, oversize, other verbs/paths, /api/v1, random bytes) and gRPC messages over all RPCs (zero values, absent optionals, malformed accounts/signatures, reversed/huge ranges, Get streams incl. unset oneof) executed in child processes with 0, 1 and 3 epochs loaded; distinct = distinct (epochs loaded, surface/method/params-shape class)")
+	rec.Rule("HTTP requests from a JSON-RPC grammar (methods x params shapes x ill-typed values x options x ids, truncation, bit flips, splices, oversize, other verbs/paths, /api/v1, random bytes) and gRPC messages over all RPCs (zero values, absent optionals, malformed accounts/signatures, reversed/huge ranges, Get streams incl. unset oneof; well-formed streams over many accounts that share slots) against archives that include metadata-less and instruction-less transactions, executed in child processes with 0, 1 and 3 epochs loaded; distinct = distinct (epochs loaded, surface/method/params-shape class)")
 	seed := ev.Seed()
 	root := filepath.Join(ev.Scratch(), "c08")
 	os.MkdirAll(root, 0o755)
 	defer os.RemoveAll(root)
 	epochs := []uint64{3, 4, 6}
 	fxs := make([]*vfEpochFx, len(epochs))
+	// a small account universe: the same accounts meet in many transactions and slots
+	var universe []solana.PublicKey
+	for i := 0; i < 10; i++ {
+		var k solana.PublicKey
+		copy(k[:], []byte(fmt.Sprintf("C08-universe-account-%d-padpadpadpad", i)))
+		universe = append(universe, k)
+	}
 	var wg sync.WaitGroup
 	for i, e := range epochs {
 		wg.Add(1)
 		go func(i int, e uint64) {
 			defer wg.Done()
-			fx, ierr, err := vfMakeEpoch(filepath.Join(root, fmt.Sprintf("e%d", e)), cargen.Opts{Epoch: e, Seed: seed + int64(e), NSlots: 120, SkipOneIn: 3, MaxEntries: 2, MaxTx: 3, MultiFrameOneIn: 6, VoteOneIn: 3, FailOneIn: 3, V0OneIn: 3, RewardsOneIn: 3, TinyOneIn: 9}, i != 2)
+			// instruction-less transactions only in the epoch that gets no address index (the address indexer
+			// classifies votes itself: a fault there would end the set-up instead of being observed on a request)
+			noInstr := 0
+			if i == 2 {
+				noInstr = 4
+			}
+			fx, ierr, err := vfMakeEpoch(filepath.Join(root, fmt.Sprintf("e%d", e)), cargen.Opts{Epoch: e, Seed: seed + int64(e), NSlots: 120, SkipOneIn: 3, MaxEntries: 2, MaxTx: 3, MultiFrameOneIn: 6, VoteOneIn: 3, FailOneIn: 3, V0OneIn: 3, RewardsOneIn: 3, TinyOneIn: 9, NoInstrOneIn: noInstr, Universe: universe}, i != 2)
 			if err != nil || ierr != "" {
 				t.Errorf("fixture: %v %s", err, ierr)
 				return
@@ -641,6 +654,29 @@ func TestVerifC08(t *testing.T) {
 				for _, hv := range hostile {
 					body := fmt.Sprintf(`{"jsonrpc":"2.0","id":1,"method":%q,"params":[%s,%s]}`, m, first, hv)
 					inputs = append(inputs, c08Input{Kind: "http", Method: "POST", Path: "/", Body: base64.StdEncoding.EncodeToString([]byte(body)), Class: "jsonrpc/" + m + "/options-not-object"})
+				}
+			}
+		}
+	}
+	// directed: well-formed StreamTransactions requests naming many accounts that occur together in the same
+	// slots (with an address index loaded the server works on them in parallel), every vote / failed setting
+	{
+		var all []string
+		for _, k := range universe {
+			all = append(all, k.String())
+		}
+		tr, fa := true, false
+		bools := []*bool{nil, &tr, &fa}
+		nRep := ev.Pick(10, 60)
+		for rep := 0; rep < nRep; rep++ {
+			for fi, fx := range fxs {
+				base := fx.Model.Epoch * cargen.SlotsPerEpoch
+				end := base + 119
+				for vi, v := range bools {
+					m := &old_faithful_grpc.StreamTransactionsRequest{StartSlot: base, EndSlot: &end}
+					m.Filter = &old_faithful_grpc.StreamTransactionsFilter{Vote: v, Failed: bools[(vi+rep)%3], AccountInclude: all[:4+(rep+fi+vi)%7]}
+					b, _ := proto.Marshal(m)
+					inputs = append(inputs, c08Input{Kind: "grpc", RPC: "StreamTransactions", Msgs: []string{base64.StdEncoding.EncodeToString(b)}, Class: "grpc/StreamTransactions/many-valid-accounts"})
 				}
 			}
 		}
